@@ -15,7 +15,7 @@ SHARED = I.Executor()
 
 
 def gen_value(rng):
-    return rng.choice([1, 0, -7, 123456789, 1e16, -2.5e17, 1e20, 6.02214076e23, 2.5, -0.125, 1e-7, 0.1 + 0.7, 0.1 + 0.2 + 0.3, 1.4 * 3, 0.57 * 100, 1 / 3, True, False, 'text', '  indented', ' ', 'ends ', 'it\'s "q"', 'a\\b', 'line1\nline2',
+    return rng.choice([1, 0, -7, 123456789, 1e16, -2.5e17, 1e20, 6.02214076e23, 2.5, -0.125, 1e-7, 0.1 + 0.7, 0.1 + 0.2 + 0.3, 1.4 * 3, 0.57 * 100, 1 / 3, True, False, 'text', '  indented', ' ', 'ends ', ' =1+2', '  =C3*2', ' = see note', 'it\'s "q"', 'a\\b', 'line1\nline2',
                        '=A1+1', '', dt.datetime(2020, 2, 29), dt.datetime(1999, 12, 31, 23, 59, 58), 'eval', '{x}', '%s', '#'])
 
 
